@@ -385,6 +385,19 @@ def run_library(ctx, names):
                 ctx.violation("%s:%s:%s" % (name, item_name(r.item), r.status),
                               "library item %s %s of theory %s: %s (%s)" % (ty, item_name(r.item), name, r.status, r.err),
                               {"stream": "library", "theory": name, "index": idx, "raw": raw})
+            if r.status == "accepted" and ty == "def.ind":
+                try:
+                    okp, why = prim_rec_ok(r.item, theory.thy)
+                except Timeout:
+                    raise
+                except Exception as e:  # noqa
+                    okp, why = False, "judge-crashed:%s" % type(e).__name__
+                ctx.count("primRecOK:library:%s" % ("yes" if okp else "no:" + str(why)))
+                ctx.coverage.setdefault("primRecOK", {"library_yes": [], "library_no": {}})
+                if okp:
+                    ctx.coverage["primRecOK"]["library_yes"].append("%s:%s" % (name, item_name(r.item)))
+                else:
+                    ctx.coverage["primRecOK"]["library_no"]["%s:%s" % (name, item_name(r.item))] = str(why)
             if r.status == "accepted":
                 for cls, detail in definitional_hazards(r.item) + r.hazards:
                     ctx.violation("%s:%s:%s" % (name, item_name(r.item), cls),
@@ -1013,6 +1026,50 @@ def related_selfref_item(rng, g):
     return "related-selfref:" + fam, {"ty": "def", "name": name, "type": ty_str(T), "prop": "%s = %s" % (lhs, rhs)}
 
 
+def compound_arg_item(rng, g):
+    """a definition with compound (non-variable) arguments whose variables are, in total, exactly as
+    many as there are arguments, and a right-hand side over these variables: `c (x = x) = x`,
+    `c (x & y) true = x`, `c (Suc x) y = x + y`.  Counting variables instead of looking at the
+    arguments accepts them; `c true = true, c false = false` but `(true = true) = (false = false)`."""
+    g.bases = [BOOL, NAT]
+    n = rng.choice([1, 1, 2, 2, 3])
+    vs = rng.sample(VNAMES, n)
+    vts = [rng.choice([BOOL, NAT]) for _ in range(n)]
+    env = list(zip(vs, vts))
+    # distribute the variables over n arguments: some arguments get several, some none (a constant)
+    groups = [[] for _ in range(n)]
+    for e in env:
+        groups[rng.randrange(n)].append(e)
+
+    def unit(v, T):
+        if T == BOOL:
+            return rng.choice([(v, BOOL), ("(~%s)" % v, BOOL), ("(%s = %s)" % (v, v), BOOL)])
+        return rng.choice([("(Suc %s)" % v, NAT), ("(%s = %s)" % (v, v), BOOL), ("(%s + 1)" % v, NAT)])
+    args, argTs = [], []
+    for gp in groups:
+        if not gp:
+            T = rng.choice([BOOL, NAT])
+            args.append(g.leaf(T, []))
+            argTs.append(T)
+            continue
+        us = [unit(v, T) for v, T in gp]
+        if len(us) == 1:
+            t, T = us[0]
+            if t == gp[0][0]:
+                t = "(~%s)" % t
+        elif all(T == NAT for _, T in us) and rng.random() < 0.5:
+            t, T = "(" + " + ".join(u for u, _ in us) + ")", NAT
+        else:
+            bs = [u if T == BOOL else "(%s = %s)" % (u, u) for u, T in us]
+            t, T = "(" + rng.choice([" & ", " | ", " --> "]).join(bs) + ")", BOOL
+        args.append(t)
+        argTs.append(T)
+    R = rng.choice([BOOL, NAT])
+    rhs = g.term(R, 1, env)
+    name = g.fresh("c")
+    return "compound-arg", {"ty": "def", "name": name, "type": ty_str(fun(*(argTs + [R]))), "prop": "%s %s = %s" % (name, " ".join(args), rhs)}
+
+
 def long_item(rng, g):
     """items whose printed rules / statements are longer than the widths an editor window has
     (60-200 characters): the editor form is then broken over several lines, or must not be"""
@@ -1564,6 +1621,98 @@ def subterms(t):
         yield from subterms(t.body)
 
 
+def datatype_constructors(thy, dname):
+    """constructor names of the datatype `dname`, read off its induction theorem in the theory"""
+    try:
+        th = thy.get_theorem(dname + "_induct", svar=False)
+    except Exception:  # noqa
+        return None
+    As, _ = th.prop.strip_implies()
+    out = []
+    for A in As:
+        while A.is_forall() and A.arg.is_abs():
+            A = A.arg.body
+        _, C = A.strip_implies()
+        if not C.is_comb():
+            return None
+        head, _ = C.arg.strip_comb()
+        if not head.is_const():
+            return None
+        out.append(head.name)
+    return out
+
+
+def prim_rec_ok(item, thy):
+    """`primRecOK`: the equations of an accepted `def.ind` item are primitive recursive over the
+    constructors of one datatype: every left-hand side is the function applied to as many arguments
+    as in every other rule, one of them (the same position everywhere) a constructor applied to
+    distinct variables and the others distinct variables; exactly one equation per constructor of
+    that datatype; every occurrence of the function on a right-hand side is a call whose argument in
+    that position is one of the constructor's variables; no other variables on the right.
+    Returns (True, position) or (False, reason)."""
+    rules = [r['prop'] for r in item.rules]
+    if not rules:
+        return False, "no-rules"
+    parsed = []
+    for p in rules:
+        if not p.is_equals():
+            return False, "not-an-equation"
+        f, args = p.lhs.strip_comb()
+        if not (f.is_const() and f.name == item.name):
+            return False, "wrong-head"
+        parsed.append((args, p.rhs))
+    n = len(parsed[0][0])
+    if n == 0 or any(len(a) != n for a, _ in parsed):
+        return False, "different-number-of-arguments"
+    pos = [i for i in range(n) if all(not a[i].is_var() for a, _ in parsed)]
+    if len(pos) != 1 or any(not a[j].is_var() for a, _ in parsed for j in range(n) if j != pos[0]):
+        return False, "not-exactly-one-pattern-position" if len(parsed) > 1 or len(pos) != 1 else "patterns-elsewhere"
+    k = pos[0]
+    seen = []
+    dname = None
+    for args, rhs in parsed:
+        head, cargs = args[k].strip_comb()
+        if not head.is_const() or not all(c.is_var() for c in cargs):
+            return False, "pattern-not-constructor-of-variables"
+        lhs_vars = [a for j, a in enumerate(args) if j != k] + list(cargs)
+        if len(set(v.name for v in lhs_vars)) != len(lhs_vars):
+            return False, "repeated-variable-on-lhs"
+        _, resT = head.T.strip_type()
+        if not resT.is_tconst():
+            return False, "pattern-type-is-a-variable"
+        if dname is None:
+            dname = resT.name
+        elif dname != resT.name:
+            return False, "patterns-of-different-types"
+        seen.append(head.name)
+        if not set(rhs.get_vars()) <= set(lhs_vars) or rhs.get_svars():
+            return False, "extra-variable-on-rhs"
+        # occurrences of the function on the right
+        ok = [True]
+
+        def walk(t):
+            h, targs = t.strip_comb()
+            if h.is_const() and h.name == item.name:
+                if len(targs) < n or not any(targs[k] == c for c in cargs):
+                    ok[0] = False
+                for u in targs:
+                    walk(u)
+            elif t.is_comb():
+                walk(t.fun)
+                walk(t.arg)
+            elif t.is_abs():
+                walk(t.body)
+        walk(rhs)
+        if not ok[0]:
+            return False, "recursive-call-not-on-a-constructor-argument"
+    constrs = datatype_constructors(thy, dname)
+    if constrs is None:
+        return False, "pattern-type-%s-is-not-a-datatype" % dname
+    if sorted(seen) != sorted(constrs):
+        return False, "not-one-equation-per-constructor"
+    return True, k
+
+
 def declared_constants(names):
     """(name, type-sexp, theory, item-ty) of every constant the loaded items declare, except the
     generic declarations of overloaded constants"""
@@ -1599,6 +1748,8 @@ def run_generated(ctx, ncases):
         r = rng.random()
         if r < 0.44:
             cases.append(g.item())
+        elif r < 0.47:
+            cases.append(compound_arg_item(rng, g))
         elif r < 0.50:
             cases.append(adversarial_item(rng, g))
         elif r < 0.55:
@@ -1637,6 +1788,18 @@ def run_generated(ctx, ncases):
         with time_limit(60):
             r = ItemRun(raw).run()
         results.append(r)
+        if r.status == "accepted" and raw['ty'] == "def.ind":
+            try:
+                okp, why = prim_rec_ok(r.item, theory.thy)
+            except Timeout:
+                raise
+            except Exception as e:  # noqa
+                okp, why = False, "judge-crashed:%s" % type(e).__name__
+            ctx.count("primRecOK:generated:%s:%s" % (kind, "yes" if okp else "no:" + str(why)))
+            # the hazards the check knows for def.ind are exactly failures of primRecOK
+            hz = [c for c, _ in definitional_hazards(r.item)]
+            if okp and hz:
+                ctx.broken("oracle:c11:primRecOK", "primRecOK holds for an item with hazard %s: %s" % (hz, json.dumps(raw, ensure_ascii=False)[:300]))
         if r.status == "accepted":
             for cls, detail in definitional_hazards(r.item) + r.hazards:
                 ctx.violation("generated:%s:%s" % (raw['ty'], cls),
@@ -1777,11 +1940,127 @@ def corpus_items(ctx):
         ("corpus:long:inductive", {"ty": "def.pred", "name": "longpr", "type": "nat => nat => bool", "rules": [
             {"name": "longpr_base", "prop": "longpr 0 0"},
             {"name": "longpr_step", "prop": "longpr m n --> longpr n m --> m = n + n --> n = m + 1 --> longpr (m + n) (n + m) --> longpr (Suc m) (Suc (Suc n)) --> longpr (Suc (m + n + n)) (n + m + m)"}]}),
+        ("corpus:compound-arg", {"ty": "def", "name": "ccomp1", "type": "bool => bool", "prop": "ccomp1 (x = x) = x"}),
+        ("corpus:compound-arg", {"ty": "def", "name": "ccomp2", "type": "bool => bool => bool", "prop": "ccomp2 (x & y) true = x"}),
+        ("corpus:compound-arg", {"ty": "def", "name": "ccomp3", "type": "bool => bool", "prop": "ccomp3 (~x) = x"}),
+        ("corpus:compound-arg", {"ty": "def", "name": "ccomp4", "type": "nat => nat => nat", "prop": "ccomp4 (x + y) 0 = x"}),
         ("corpus:valid", {"ty": "def", "name": "Kc", "type": "'a => 'b => 'a", "prop": "Kc x y = x"}),
         ("corpus:valid", {"ty": "def", "name": "compc", "type": "('b => 'c) => ('a => 'b) => 'a => 'c", "prop": "compc f g x = f (g x)"}),
         ("corpus:valid", {"ty": "def", "name": "Ic", "type": "'a => 'a", "prop": "Ic = (%x::'a. x)", "attributes": ["hint_rewrite"]}),
     ]
     return fixed
+
+
+def run_reload(ctx, nrounds):
+    """Items must survive a re-load of the cache after an edit of an indirectly imported theory: a
+    chain of user theories  base <- mid* <- top  is written to a scratch directory (the two path
+    functions of logic/basic.py are redirected there, nothing is written into the repository), `top`
+    is loaded, a theory further down is edited on disk, `top` is loaded again in the same process (as
+    the server does after a save).  Then every theorem of the loaded theory must be well-typed over
+    its signature, and the theory must equal what a fresh cache loads from the same files."""
+    from logic import basic
+    from kernel import theory
+    rng = ctx.rng("reload")
+    root = os.path.join(ctx.scratch, "users")
+    user = "c11reload"
+    os.makedirs(os.path.join(root, user), exist_ok=True)
+    old_dir, old_file = basic.user_dir, basic.user_file
+
+    def user_dir(username="master"):
+        return old_dir(username) if username == "master" else os.path.join(root, username)
+
+    def user_file(filename, username="master"):
+        return old_file(filename, username) if username == "master" else os.path.join(root, username, filename + ".json")
+    basic.user_dir, basic.user_file = user_dir, user_file
+    bump = [0]
+
+    def write(name, imports, content):
+        path = user_file(name, user)
+        with open(path, "w", encoding="utf-8") as f:
+            json.dump({"name": name, "imports": imports, "description": "", "content": content}, f)
+        bump[0] += 10
+        st = os.stat(path)
+        os.utime(path, (st.st_atime + bump[0], st.st_mtime + bump[0]))
+
+    def snapshot():
+        return {"term_sig": {k: str(v) for k, v in theory.thy.get_data("term_sig").items() if k.startswith("rl_")},
+                "type_sig": {k: v for k, v in theory.thy.get_data("type_sig").items() if k.startswith("rl_")},
+                "theorems": {k: repr(v.prop) for k, v in theory.thy.get_data("theorems").items() if k.startswith("rl_")}}
+
+    def ill_typed():
+        bad = []
+        for nm, th in sorted(theory.thy.get_data("theorems").items()):
+            if not nm.startswith("rl_"):
+                continue
+            try:
+                for t in list(th.hyps) + [th.prop]:
+                    for c in t.get_consts():
+                        theory.thy.check_term(c)
+                    for T in all_types_of_term(t, []):
+                        theory.thy.check_type(T)
+                th.check_thm_type()
+            except Timeout:
+                raise
+            except Exception as e:  # noqa
+                bad.append("%s [%s: %s]" % (nm, type(e).__name__, str(getattr(e, "str", e))[:80]))
+        return bad
+    import contextlib
+    import io
+    saved = theory.thy
+    try:
+        for rd in range(nrounds):
+            depth = rng.choice([3, 3, 4])
+            names = ["rl_t%d_%d" % (rd, i) for i in range(depth)]
+            variant = rng.randrange(4)
+            variant = rng.randrange(3)
+            k, ty1, ty2, use = [
+                ("rl_k%d" % rd, "bool => bool", "(bool => bool) => bool", "rl_d%d x = rl_k%d x"),
+                ("rl_k%d" % rd, "bool", "bool => bool", "rl_d%d x = (rl_k%d = x)"),
+                ("rl_k%d" % rd, "'a => 'a", "'a => bool", "rl_d%d x = rl_k%d x")][variant]
+            dT = ["bool => bool", "bool => bool", "'a => 'a"][variant]
+            base1 = [{"ty": "def.ax", "name": k, "type": ty1}]
+            base2 = [{"ty": "def.ax", "name": k, "type": ty2}]
+            top = [{"ty": "def", "name": "rl_d%d" % rd, "type": dT, "prop": use % (rd, rd)}]
+            basic.theory_cache.pop(user, None)          # the files of this round are new: fresh metadata
+            basic.item_index.pop(user, None)
+            write(names[0], [], base1)
+            for i in range(1, depth - 1):
+                write(names[i], [names[i - 1]], [{"ty": "def.ax", "name": "rl_b%d_%d" % (rd, i), "type": "bool"}])
+            write(names[-1], [names[-2]], top)
+            replay = {"stream": "reload", "variant": variant, "depth": depth}
+            try:
+                with time_limit(300), contextlib.redirect_stdout(io.StringIO()):
+                    basic.load_theory(names[-1], username=user)
+                    if not theory.thy.has_theorem("rl_d%d_def" % rd):
+                        ctx.broken("reload:c11:setup", "the definition of round %d was not accepted on the first load" % rd)
+                        continue
+                    write(names[0], [], base2)            # edit the theory two or more imports away
+                    basic.load_theory(names[-1], username=user)
+                    warm = snapshot()
+                    bad = ill_typed()
+                    basic.theory_cache.pop(user, None)
+                    basic.item_index.pop(user, None)
+                    basic.load_theory(names[-1], username=user)
+                    cold = snapshot()
+            except Timeout:
+                raise
+            except Exception as e:  # noqa
+                ctx.violation("reload:raises:%s" % type(e).__name__, "re-loading a theory after an edit of an indirect import raises %s: %s" % (
+                    type(e).__name__, str(getattr(e, "str", e))[:200]), replay)
+                continue
+            ctx.count("reload:rounds")
+            ctx.case(("reload", rd, variant, depth), nontrivial=True)
+            if bad:
+                ctx.violation("reload:ill-typed-after-edit", "after an edit of an indirectly imported theory the re-loaded theory contains theorems "
+                              "that are not well-typed over its signature: %s" % "; ".join(bad)[:300], replay)
+            if warm != cold:
+                ctx.violation("reload:differs-from-fresh-load", "the theory re-loaded after an edit of an indirect import differs from a fresh load of the "
+                              "same files: %s / %s" % (str(warm)[:200], str(cold)[:200]), replay)
+    finally:
+        basic.user_dir, basic.user_file = old_dir, old_file
+        basic.theory_cache.pop(user, None)
+        basic.item_index.pop(user, None)
+        theory.thy = saved
 
 
 def run(ctx):
@@ -1797,10 +2076,12 @@ def run(ctx):
         "accepted item's editor round trip under line_length in {120, 80, 60, 40} x unicode (library theorems at quick tier: two settings each). "
         "Added (audit): unchecked definitional kinds with overlapping / non-exhaustive / non-terminating equations, negative premises, conclusions "
         "that are not the predicate, non-positive constructor arguments; re-declared types, constants, theorem names (also as two-item sequences); "
-        "looping / unknown / repeated attributes; rejected items through both round trips.")
-    ok = ctx.lean_props(["Holpy.C11.Props"], exes=[EXE])
+        "looping / unknown / repeated attributes; rejected items through both round trips. Added: definitions with compound arguments whose "
+        "variables are as many as the arguments (c (x = x) = x); a chain of 3-4 user theories in a scratch directory re-loaded after an edit of "
+        "the first one (4 / 20 rounds).")
+    ok = ctx.lean_props(["Holpy.C11.Props", "Holpy.C11.Props2"], exes=[EXE])
     if ctx.tier == "thorough" and ok:
-        ctx.lean_check_modules(["Holpy.C11.Props"])
+        ctx.lean_check_modules(["Holpy.C11.Props", "Holpy.C11.Props2"])
     ctx.coverage["trusted_base"] += [
         "correspondence harness harness/props/c11.py + harness/common/kwire.py (field-level serialisation of real Term objects)",
         "the Lean evaluator `sem` run as an executable oracle (same definition the theorems are about)",
@@ -1831,6 +2112,8 @@ def run(ctx):
     ctx.log("library: %d items of %d theories" % (n, len(order)))
     m = run_generated(ctx, ctx.scale(700, 6000))
     ctx.log("generated: %d items" % m)
+    run_reload(ctx, ctx.scale(4, 20))
+    ctx.log("reload: done")
 
 
 def replay(ctx, rp):
@@ -1847,6 +2130,10 @@ def replay(ctx, rp):
     except Exception as e:  # noqa
         print("theory real does not load:", type(e).__name__, getattr(e, "str", e))
         return True
+    if r.get("stream") == "reload":
+        n0 = len(ctx.violations)
+        run_reload(ctx, 8)
+        return len(ctx.violations) > n0
     if r.get("stream") == "library-load":
         try:
             basic.load_theory(r["theory"])
@@ -1896,7 +2183,14 @@ MANIFEST = {
             "def_conservative_poly); sequents that do not mention the constant stay satisfied together with the equation (def_keeps_consistency, "
             "def_keeps_consistency_poly); for a constant definition c = t a sequent over the old signature that is Valid with the equation as a "
             "hypothesis is Valid without it (const_def_eliminable); the generated theorem passes check_thm_type, and checkThmTypeSig when the logical "
-            "constants are used at their types (def_ext_welltyped); six counterexample theorems (self reference, at a type with permuted type "
+            "constants are used at their types (def_ext_welltyped); COMPOSITION WITH C01 (Props2.lean): the interpretation `defValue` is natural under "
+            "type instantiation (Model.pull), so ONE valuation, changed at the new constant only, makes the stored schematic (convert_svar) equation of "
+            "an accepted def true in every pulled model (defOK_gives_DefsHold), by induction for any sequence of items each accepted in the theory "
+            "extended by the previous ones (defs_list_gives_DefsHold; new, non-overloaded names), hence the class StdDefs of C01 is inhabited in every "
+            "finite standard model (accepted_defs_inhabited) and every script the checker accepts over logic_base + accepted def items is sound and "
+            "never proves false (check_proof_sound_over_accepted_defs); a counterexample theorem shows why recursive functions are out of reach of "
+            "finite models (primrec_not_conservative_in_finite_models: f 0 = True, f (Suc n) = False has no interpretation when nat has one element; "
+            "free constructors need an infinite carrier); six counterexample theorems (self reference, at a type with permuted type "
             "variables, extra type variable, free variable, non-variable argument: no interpretation; repeated argument: not unique). NOT proved: "
             "anything about def.ind / def.pred / type.ind (recursive functions, inductive predicates, datatypes) or the .ax kinds, infinite models, "
             "Theory.check_term, uniqueness of the interpretation. COMPARED on every run (real code, generated and library inputs): Definition.parse's "
@@ -1907,12 +2201,19 @@ MANIFEST = {
             "parse_edit(get_display()) judged by Item.__eq__ AND equality of export_json() and get_display() of the two items, the editor form also "
             "under line_length 120/80/60/40 and unicode on/off; rejected items keep their text and error through both round trips; syntactic hazards of "
             "accepted def.ind / def.pred / type.ind items (overlapping equations, recursive call on the same arguments, negative occurrence, "
-            "non-positive constructor argument, type declared twice) are reported (known findings).",
+            "non-positive constructor argument, type declared twice) are reported (known findings); the decidable predicate primRecOK (one equation per "
+            "constructor of one datatype, distinct-variable patterns, recursive calls on constructor arguments only) is evaluated on every def.ind item "
+            "of the library (thorough: 23 of 25 satisfy it; list:nth and verit:let match on two arguments) and of the generated stream, and must fail "
+            "for every item with a def.ind hazard; re-loading a chain of user theories after an edit of an indirectly imported one must give theorems "
+            "well-typed over the signature and the same theory as a fresh load.",
     "note": "Trusted: Lean kernel, axioms propext/Classical.choice/Quot.sound; the parser/printer (C07/C08) whose output is the object of the side "
             "conditions; the hand model's fidelity is as good as the generated items exercise it. A rejected library item is not a violation (the "
             "property does not say library items are accepted): it is counted and reported as a stream that no longer checks. For overloaded constants "
             "newness is the instance check of add_term_sig; generic axioms about an overloaded constant constrain later instances by design. "
-            "`is_apart` is a sufficient test for 'no common instance' (constructor clash), so some harmless definitions are rejected.",
+            "`is_apart` is a sufficient test for 'no common instance' (constructor clash), so some harmless definitions are rejected. The composition "
+            "theorem excludes overloaded names (each new constant must not occur in earlier items) and assumes the parser's output uses the logical "
+            "constants at their types (sigOK). primRecOK has NO theorem behind it (no finite model has free constructors for nat / lists): it is "
+            "evidence about the library, not a proof.",
     "design_ref": "DESIGN.md 4/C11, 8.15",
 }
 FINDINGS = [
